@@ -25,7 +25,4 @@ TEXT["C18"] = dict(
 
 NOT_APPLICABLE = {
  "C06": "check under construction in this round (spec/UrlResolve.tla); not yet registered",
- "C15": "check under construction in this round; not yet registered",
- "C16": "check under construction in this round; not yet registered",
- "C17": "check under construction in this round; not yet registered",
 }
